@@ -25,13 +25,19 @@ NoCorr == [kind |-> "none", col |-> 0, row |-> 0, delta |-> 0, idx |-> 0]
 NeedsP(shs) == \E j \in 1..Len(shs) : ShapePeriodics(shs[j]) > 0
 Needs2P(shs) == \E j \in 1..Len(shs) : ShapePeriodics(shs[j]) > 1
 
+\* cycle lengths of the periodic columns: with two columns, both orders (the longer cycle first / last)
+\* and equal cycles
+PCycChoices(shs) == IF Needs2P(shs) THEN {<<4, 2>>, <<2, 4>>, <<2, 8>>, <<4, 4>>}
+                    ELSE IF NeedsP(shs) THEN {<<4>>} ELSE {<<>>}
 Descs == { [width |-> Len(shs), log_len |-> LogLen, shapes |-> shs,
-            pcyc |-> IF Needs2P(shs) THEN <<4, 2>> ELSE IF NeedsP(shs) THEN <<4>> ELSE <<>>,
-            init |-> [j \in 1..Len(shs) |-> IF shs[j] = "pcol" THEN PerValue(0, 4, 3) ELSE j + 1],
+            pcyc |-> pc,
+            \* a "pcol" column equals periodic column 0: its first row is that column's value at step L - 1
+            init |-> [j \in 1..Len(shs) |-> IF shs[j] = "pcol" /\ pc # <<>> THEN PerValue(0, pc[1], L - 1) ELSE j + 1],
             exemptions |-> e, asserts |-> as, aux |-> ax, meta |-> <<>>, extra |-> <<>>]
-          : shs \in ShapeSets, e \in Exemptions, as \in AssertSets, ax \in AuxChoices }
+          : shs \in ShapeSets, e \in Exemptions, as \in AssertSets, ax \in AuxChoices, pc \in UNION {PCycChoices(s2) : s2 \in ShapeSets} }
 
 WellFormed(x) ==
+  /\ x.pcyc \in PCycChoices(x.shapes)
   /\ ExemptionsOk(x)
   /\ \A i \in 1..Len(x.asserts) : x.asserts[i].col < x.width
   /\ \A i, j \in 1..Len(x.asserts) : i # j => ACells(x.asserts[i], L) \cap ACells(x.asserts[j], L) = {}
